@@ -721,7 +721,8 @@ def _inline_methods_in_class(c: Optional[ast.ClassDef], extra: Optional[Dict[str
                 fn_chain = outer.func
                 while isinstance(fn_chain, ast.Attribute):
                     fn_chain = fn_chain.value
-                if isinstance(fn_chain, ast.Name) and outer.args and call_of(outer.args[0]) is not None and call_of(outer.args[0]) is not host:
+                is_super = isinstance(fn_chain, ast.Call) and isinstance(fn_chain.func, ast.Name) and fn_chain.func.id == 'super' and not fn_chain.args
+                if (isinstance(fn_chain, ast.Name) or is_super) and outer.args and call_of(outer.args[0]) is not None and call_of(outer.args[0]) is not host:
                     h2 = call_of(outer.args[0])
                     if isinstance(h2.body[-1], ast.Return):
                         r2 = expand(h2, outer.args[0], s)
